@@ -137,7 +137,10 @@ fn regex_entry(p: &str, texts: &BTreeSet<String>) -> Value {
 /// the suffix the *harness* uses to pick a grammar for its own tree-sitter walk: taken from the
 /// real lookup's class (so the node list is the one the implementation's grammar produces)
 fn ext_for(ctx: &mut Ctx, path: &str, extra: &BTreeMap<String, String>) -> Option<String> {
-    impl_class(ctx, path, extra).and_then(|c| c.into_iter().next())
+    // any member of the class the harness has a grammar for: the class is the set of suffixes sharing one parser object, so
+    // a further suffix registered for an existing grammar (`mjs` next to `js`) changes nothing here
+    let class = impl_class(ctx, path, extra)?;
+    class.into_iter().find(|e| ctx.grammars.contains_key(e.as_str()))
 }
 
 pub fn case_json(ctx: &mut Ctx, case: &Case) -> Value {
